@@ -312,7 +312,27 @@ def main(argv):
             if r.get("model_rc", 0) != 0:
                 breaks.append({"kind": "harness", "sig": pid.lower() + ":driver-exit", "what": "model driver failed", "detail": r.get("model_log", "")})
                 continue
-            for (i, c, o, m) in compare(r["cases"], r["obs"], r["model"]):
+            mism = compare(r["cases"], r["obs"], r["model"])
+            # Observations of concurrent scenarios can depend on things the schedule does not fix (map
+            # iteration order, goroutine wake-up order). A mismatching case is re-run in isolation;
+            # it stays a break only if the implementation NEVER produces the model's line. Oracle
+            # failures are never retried away.
+            retries = cfg.get("retry_mismatch", 0)
+            if retries and mism and len(mism) <= 25:
+                kept = []
+                for (i, c, o, m) in mism:
+                    agreed = False
+                    for k in range(retries):
+                        rr = run_cases(pid, cfg, "retry", seed, tier, [c], timeout=300)
+                        if rr["rc"] == 0 and rr["obs"] and rr["model"] and not compare(rr["cases"], rr["obs"], rr["model"]):
+                            agreed = True
+                            break
+                    if agreed:
+                        notes.append("schedule-dependent case (matched the model on a re-run): " + c[:160])
+                    else:
+                        kept.append((i, c, o, m))
+                mism = kept
+            for (i, c, o, m) in mism:
                 breaks.append({"kind": "correspondence", "sig": "%s:mismatch:%s" % (pid.lower(), case_kind(c)),
                                "what": "implementation and Lean model disagree on a %s case" % case_kind(c),
                                "detail": "impl : %s\nmodel: %s" % (o[:3000], m[:3000]), "cases": [c]})
